@@ -554,7 +554,7 @@ def oracle_edges(ctx) -> None:
 
 def oracle_e2e(ctx) -> None:
     rng = ctx.rng
-    ntables = 90 if ctx.tier == "quick" else 900
+    ntables = 75 if ctx.tier == "quick" else 600
     nfilters = 10 if ctx.tier == "quick" else 14
     total = 0
     stats = {"all_raise": 0, "empty_result": 0, "nonempty_result": 0, "projected": 0, "empty_tables": 0}
@@ -965,7 +965,7 @@ def phase_of(flt_py: Optional[Dict[str, Any]]) -> int:
 
 def corr_pipelines(ctx) -> None:
     rng = ctx.rng
-    ntables = 40 if ctx.tier == "quick" else 400
+    ntables = 40 if ctx.tier == "quick" else 250
     nfilters = 8 if ctx.tier == "quick" else 12
     exprs, impl, descs = [], [], []
     order_equal = 0
@@ -1060,18 +1060,24 @@ def run(ctx) -> None:
         "date vs timestamp comparisons (pyarrow casts, Python refuses) and inexact literals on float32 columns are outside the model; the oracle demands cross-API agreement there",
         "NaN membership (NaN in [NaN]) is judged by cross-API agreement only (DESIGN.md C12 Interpretation)",
     ]
-    ctx.proofs(THEOREMS, gen_files=GEN_FILES)
-    ctx.allow_axioms([])
+    import time
+    timings: Dict[str, float] = {}
+
+    def timed(name, fn):
+        t0 = time.time()
+        try:
+            fn(ctx)
+        finally:
+            timings[name] = round(time.time() - t0, 1)
+            ctx.stats["phase_wall_s"] = timings
+
+    timed("proofs", lambda c: (c.proofs(THEOREMS, gen_files=GEN_FILES), c.allow_axioms([])))
     # implementation-only oracles always run: they are the search for a concrete failing input
-    oracle_corpus(ctx)
-    oracle_malformed(ctx)
-    oracle_edges(ctx)
-    oracle_e2e(ctx)
+    for name, fn in (("corpus", oracle_corpus), ("malformed", oracle_malformed), ("edges", oracle_edges), ("e2e", oracle_e2e)):
+        timed("oracle_" + name, fn)
     try:
-        corr_prims(ctx)
-        corr_parse(ctx)
-        corr_build(ctx)
-        corr_pipelines(ctx)
+        for name, fn in (("prims", corr_prims), ("parse", corr_parse), ("build", corr_build), ("pipelines", corr_pipelines)):
+            timed("corr_" + name, fn)
     except RuntimeError as e:
         ctx.proof_problems.append("model evaluation failed: " + str(e)[:600])
 
